@@ -38,4 +38,23 @@ WildcardOneLabel == (Match(scen.x, scen.sans, scen.cn, TRUE) /\ scen.x.kind = "d
                         => /\ \A i \in 1..Len(scen.x.lab) : scen.x.lab[i] # ""
                            /\ scen.x.lk[1] = "odd" => \/ \E k \in 1..Len(scen.sans) : scen.sans[k].kind = "dns" /\ scen.sans[k].lab = scen.x.lab
                                                       \/ scen.cn.lab = scen.x.lab        \* only literally
+
+(* ---- the option-aware reading against the plain one, over the same universe x every option setting ---- *)
+NoName == [N("none", <<>>, <<>>) EXCEPT !.bad = TRUE]
+View(x) == [dns |-> IF x.kind = "dns" THEN x ELSE NoName, email |-> IF x.kind = "email" THEN x ELSE NoName, ip |-> IF x.kind = "ip" THEN x ELSE NoName]
+KindType(x) == CASE x.kind = "dns" -> "host" [] x.kind = "email" -> "email" [] x.kind = "ip" -> "ip" [] OTHER -> "any"
+Opts == [nt : NameTypes, cnalways : BOOLEAN, ci : BOOLEAN]
+MO(o) == MatchOpt(View(scen.x), scen.sans, scen.cn, o.nt, o.cnalways, o.ci)
+\* with the name type that goes with the kind of the expected name and no flags, MatchOpt is Match
+OptAgrees == \A ci \in BOOLEAN : MatchOpt(View(scen.x), scen.sans, scen.cn, KindType(scen.x), FALSE, ci) = Match(scen.x, scen.sans, scen.cn, ci)
+\* a narrower name type never matches more than "any"; flags aside, nothing matches under an illegal combination
+NarrowerNeverMore == \A o \in Opts : MO(o) => MO([o EXCEPT !.nt = "any"])
+IllegalMatchesNothing == \A o \in Opts : ~LegalOpts(o.nt, o.cnalways) => ~MO(o)
+\* list order is irrelevant under every option setting
+OptOrderIndependent == \A o \in Opts : MO(o) = MatchOpt(View(scen.x), Rev(scen.sans), scen.cn, o.nt, o.cnalways, o.ci)
+\* without CnAlways the common name counts only when no supported entry is present - whatever the name type
+OptCnOnlyWithoutSan == \A o \in Opts : (~o.cnalways /\ MO(o) /\ \E k \in 1..Len(scen.sans) : SupportedSan(scen.sans[k]))
+                                            => MatchOpt(View(scen.x), scen.sans, N("none", <<>>, <<>>), o.nt, o.cnalways, o.ci)
+\* vacuity guard (must be violated): CnAlways does make a difference somewhere in the universe
+CnAlwaysNeverMatters == \A o \in Opts : MO([o EXCEPT !.cnalways = TRUE]) = MO([o EXCEPT !.cnalways = FALSE]) \/ ~LegalOpts(o.nt, TRUE)
 =============================================================================
